@@ -1,10 +1,11 @@
-"""C11 (front-end part) — the outcome of checking a definition does not depend on session history.
+"""C11 — the outcome of checking *and lowering* a definition does not depend on session history.
 Real code: engine.py (CompilationEngine.check / reset / get_parsed / get_checked, DEF_STORE), definition/* (parse / check of
 functions, structs, declarations), the whole checker — driven through the public `.check()`.
 A history is a sequence of `.check()` calls on a pool of definitions (accepted and failing ones, a struct, generics, nested
 closures, std iterators); the solver chooses the history and the target; the target's outcome after the history — the rendered
 diagnostic, or the dump of its checked CFG — must equal its outcome as the first check of a session (computed once, at
-import, before any other check).  Compilation to HUGR cannot run for /repo here: the claim is about checking only."""
+import, before any other check).  For accepted targets the outcome includes a structural dump of the HUGR that /repo's back end
+emits (CompilerContext.compile; node kinds, op names, constants, wiring) — packaging, validation and execution stay outside."""
 import itertools
 import os
 import lib.repo_env
@@ -39,6 +40,48 @@ C10 = _load_c10_without_hook()
 POOL_NAMES = ["rows_two_types", "maybe_undefined_siblings", "closure_captures", "closure_captures_gate_off", "struct_fields_live", "generic_two", "accepted_for",
               "use_after_move_two", "array_comp_captures", "unsolved_two"]
 POOL = [next(d for d in C10.P.PROGRAMS if d.wrapped.name == n) for n in POOL_NAMES]
+_spec2 = importlib.util.spec_from_file_location("c11_programs", os.path.join(os.path.dirname(__file__), "data", "c11_programs.py"))
+P2 = importlib.util.module_from_spec(_spec2)
+sys.modules[_spec2.name] = P2
+_spec2.loader.exec_module(P2)
+POOL += P2.PROGRAMS
+POOL_NAMES += [d.wrapped.name for d in P2.PROGRAMS]
+from lib import e7
+
+
+def _hugr_dump(defn) -> str:
+    """structural dump of the HUGR emitted for an accepted definition (lowered by /repo's back end)"""
+    try:
+        h, _ = e7.lower(defn)
+    except Exception as e:  # noqa: BLE001   (the lowering raising is itself an observable outcome)
+        return f"LOWERING RAISED {type(e).__name__}: {str(e)[:200]}"
+    out = []
+    for n in h:
+        d = h[n]
+        op = d.op
+        extra = ""
+        nm = type(op).__name__
+        if nm == "Const":
+            extra = repr(op.val)
+        elif nm in ("FuncDefn", "FuncDecl"):
+            extra = op.f_name
+        elif nm == "Tag":
+            extra = str(op.tag)
+        elif nm == "Call":
+            extra = repr(getattr(op, "type_args", ""))
+        else:
+            extra = e7._opname(op) if nm in ("ExtOp", "Custom") else ""
+        ins = sorted((p.offset, [(o.node.idx, o.offset) for o in outs]) for p, outs in h.incoming_links(n))
+        out.append(f"{n.idx} {nm} {extra} parent={d.parent.idx if d.parent is not None else None} in={ins}")
+    return "\n".join(out)
+
+
+def outcome(defn) -> str:
+    r = C10.outcome(defn, None)
+    if r.startswith("ACCEPTED"):
+        r += "\n--HUGR--\n" + C10._norm(_hugr_dump(defn))
+    return r
+
 L = int(os.environ.get("VERIF_C11_L", "2"))
 _SH, _NSH = (int(x) for x in os.environ.get("VERIF_C11_SHARD", "0/1").split("/"))
 with NoTracing():
@@ -48,8 +91,13 @@ with NoTracing():
     BASE = {}
     for _d in POOL:
         EN.ENGINE.reset()
-        BASE[_d.wrapped.name] = C10.outcome(_d, None)
-HISTORIES = [h for n in range(0, L + 1) for h in itertools.product(range(len(POOL)), repeat=n)]
+        BASE[_d.wrapped.name] = outcome(_d)
+# histories are drawn from the whole pool (VERIF_C11_HPOOL=all) or from the members most likely to leave something behind: the
+# failing ones, the failing call chain, the shared leaf and its users, the never-returning and the twice-instantiated function
+_HP = os.environ.get("VERIF_C11_HPOOL", "core")
+HIST_POOL = list(range(len(POOL))) if _HP == "all" else [POOL_NAMES.index(n) for n in
+                                                          ("use_after_move_two", "unsolved_two", "mid_calls_bad", "top_calls_mid", "ok_user", "spin", "uses_pick", "closure_captures")]
+HISTORIES = [h for n in range(0, L + 1) for h in itertools.product(HIST_POOL, repeat=n)]
 CASES = [(h, t) for h in HISTORIES for t in range(len(POOL))][_SH::_NSH]
 LAST_DETAIL = None
 
@@ -63,9 +111,9 @@ def h_history(case: int) -> bool:
     hist, tgt = CASES[realize(case)]
     with NoTracing():
         for i in hist:
-            C10.outcome(POOL[i], None)
-        got = C10.outcome(POOL[tgt], None)
-        again = C10.outcome(POOL[tgt], None)       # and compiling it a second time changes nothing either
+            outcome(POOL[i])
+        got = outcome(POOL[tgt])
+        again = outcome(POOL[tgt])       # and compiling it a second time changes nothing either
         want = BASE[POOL_NAMES[tgt]]
         for label, g in (("after the history", got), ("when checked twice in a row", again)):
             if g != want:
